@@ -64,7 +64,7 @@ Sits == ExtentSits \cup IndSits
 \* blocks the prelude writes (one extent each: the two files are written alternately block by block) / densely for block maps
 Prelude(s) == CASE s = "root_full" -> RootSlots
                 [] s = "leaf_full" -> LeafCap
-                [] s = "index_full" -> RootSlots * LeafCap
+                [] s = "index_full" -> RootSlots * (LeafCap - 1) + 1     \* a leaf split at the end of the file leaves LeafCap - 1 behind
                 [] s = "ind" -> 12
                 [] s = "dind" -> 12 + AddrPB
 \* units the mapping must grow by when one more extent / block is added in that situation
